@@ -110,7 +110,7 @@ def standin_seeded(tier, seed):
     uniq = {v["key"]: v for v in violations}
     return dict(evaluations=evals, distinct_nontrivial=len(distinct),
                 rule="one evaluation = one seeded run compared bit for bit with its reference; distinct = (operation, model, algorithm, seed, prior activity)",
-                samples=samples, violations=list(uniq.values())[:8],
+                samples=samples, violations=list(uniq.values())[:60],
                 bound=dict(model_kinds=len(kinds), seeds=len(seeds), prior_draws=[0, 1, 17], exhaustive=False))
 
 
@@ -157,7 +157,7 @@ def standin_logging(tier, seed):
     uniq = {v["key"]: v for v in violations}
     return dict(evaluations=evals, distinct_nontrivial=len(distinct),
                 rule="one evaluation = one seeded fit under one logging configuration compared bit for bit with the unlogged fit",
-                samples=samples, violations=list(uniq.values())[:10],
+                samples=samples, violations=list(uniq.values())[:60],
                 bound=dict(periodicities=[str(p) for p in per], combinations=len(combos) * 2, n_iter=n_iter, exhaustive=True))
 
 
